@@ -476,6 +476,17 @@ def evaluate(ctx, deep):
                                       "vector_head": [complex(x) for x in vec[:4]]} if n == 3 else None)
                     eval_case(ctx, cls, opts, vec, fam, as_list, tag)
 
+    # mid-size registers (9 and 10 qubits: qubit labels beyond 7, register halves of 5 qubits), default configurations
+    for n in ((9, 10) if deep else (9,)):
+        vec = gen_state(rng, n, "complex" if "complex" in FAMS else FAMS[0])
+        for cls in ("LowRankInitialize", "SVDInitialize", "UCGInitialize", "UCGEInitialize", "BaaLowRankInitialize", "TopDownInitialize",
+                    "IsometryInitialize"):
+            if n > 9 and cls in ("TopDownInitialize", "IsometryInitialize"):
+                continue
+            ctx.monitor(f"n={n}")
+            ctx.count(f"{cls.replace('Initialize', '')}:mid_size", key=(cls, n, vec.tobytes()[:256]), nontrivial=True, sample=None)
+            eval_case(ctx, cls, None, vec, "mid_size", False, "default")
+
 
 def input_forms(ctx, deep):
     """the same vector handed over in other Python representations (tuple, real list / array, integer list / array for
